@@ -104,7 +104,15 @@ Specials ==
          B("Sub", B("Sub", tt, KI(1)), x), Look(Look(oo, "p"), "q"), B("Sub", tt, B("Sub", tt, KI(1))),
          N("Sum", << x, x, x >>), N("Sum", << N("Product", << y, z >>), N("Product", << y, z >>), x >>),
          N("Sum", << N("Product", << KI(1), z >>), N("Product", << TRUEK, z >>), x >>),
-         N("Tup", << >>), N("Tup", << N("Tup", << x, y >>), N("Tup", << y, KI(2) >>) >>) }
+         N("Tup", << >>), N("Tup", << N("Tup", << x, y >>), N("Tup", << y, KI(2) >>) >>),
+         \* a look-up whose attribute name is a key name; falsy slice bounds; constants whose
+         \* Python hashes collide (hash(-1) == hash(-2))
+         Look(oo, "x"), N("Sum", << Look(oo, "x"), x >>), N("Sum", << Look(oo, "y"), y, x >>),
+         B("Sub", tt, N("Slice", << KI(0), x >>)), B("Sub", tt, N("Slice", << x, KI(0) >>)),
+         B("Sub", tt, N("Slice", << y, x, KI(0) >>)), B("Sub", tt, N("Slice", << K(BoolV(FALSE)), x >>)),
+         N("Sum", << B("Power", x, KI(-1)), B("Power", x, KI(-2)) >>),
+         N("Sum", << N("Product", << KI(-1), x >>), N("Product", << KI(-2), x >>) >>),
+         N("Tup", << KI(-1), KI(-2), x >>), N("Tup", << KI(-2), x, KI(-1) >>) }
 
 A == HoleT("any")  L == HoleT("leaf")  M == HoleT("tiny")  Rn == HoleT("rnd")
 Roots(big) == Skel(A, L, M, IF big THEN M ELSE y) \cup Specials
